@@ -409,78 +409,3 @@ Lemma sensitive_gated : attr_supported (1, 3) "Sensitive" = false /\ attr_suppor
   /\ attr_deprecated (2, 0) "Operation Policy Name" = true /\ attr_deprecated (1, 4) "Operation Policy Name" = false.
 Proof. repeat split; vm_compute; reflexivity. Qed.
 
-(* ------------------------------------------------------------------ agreement with the specification tables *)
-Lemma tables_agree : ops_agree_with_spec = true /\ supported_agree_with_spec = true /\ attrs_agree_with_spec = true
-  /\ attr_tags_agree_with_spec = true /\ fields_agree_with_spec = true /\ classes_agree_with_spec = true
-  /\ read_write_symmetric = true /\ spec_covers_intro_guards = true.
-Proof. repeat split; vm_compute; reflexivity. Qed.
-
-(* an operation is never let through under a version older than the specification that introduced it *)
-Definition spec_gate_ok : bool :=
-  forallb (fun v => forallb (fun e =>
-      match spec_op_min (fst e) with
-      | Some s => implb (ver_ltb v s) (negb (gate_runs v (fst e)))
-      | None => false
-      end) dispatch_table) supported_versions.
-Lemma spec_gate_ok_true : spec_gate_ok = true.
-Proof. vm_compute; reflexivity. Qed.
-
-Lemma op_gated_spec : forall v op s, In v supported_versions -> spec_op_min op = Some s -> ver_ltb v s = true ->
-  gate_runs v op = false.
-Proof.
-  intros v op s Hv Hs Hlt; unfold gate_runs, gate.
-  destruct (lookup_handler op) as [h|] eqn:E; [|reflexivity].
-  pose proof spec_gate_ok_true as G; unfold spec_gate_ok in G.
-  pose proof (forallb_In _ _ _ v G Hv) as G1; cbv beta in G1; cbn [fst snd] in G1.
-  unfold lookup_handler in E; pose proof (assoc_z_In _ _ _ _ E) as E'.
-  pose proof (forallb_In _ _ _ (op, h) G1 E') as G2; cbv beta in G2; cbn [fst snd] in G2.
-  rewrite Hs, Hlt in G2; simpl in G2; unfold gate_runs, gate, lookup_handler in G2; rewrite E in G2.
-  destruct (existsb (decorator_refuses v) (handler_args h)); [reflexivity | discriminate].
-Qed.
-
-Lemma attr_gated_spec : forall v n, ver_ltb v (spec_attr_min n) = true -> attr_supported v n = false.
-Proof.
-  intros v n H; unfold attr_supported; destruct (find_rule n) as [r|] eqn:E; [|reflexivity].
-  destruct tables_agree as [_ [_ [A _]]]; unfold attrs_agree_with_spec in A.
-  unfold find_rule in E; apply find_some in E; destruct E as [E1 E2]; apply String.eqb_eq in E2.
-  pose proof (forallb_In _ _ _ r A E1) as A1; cbv beta in A1; cbn [fst snd] in A1; apply andb_true_iff in A1; destruct A1 as [A1 _].
-  apply ver_eqb_eq in A1; rewrite A1, E2, ver_geb_negb_ltb, H; reflexivity.
-Qed.
-
-(* fields *)
-Lemma field_gated_lemma : forall cls t v0 v, In (cls, t, v0) SpecFieldVersions -> In v kmip_versions ->
-  tag_allowed cls v t = ver_leb v0 v.
-Proof.
-  intros cls t v0 v Hin Hv; destruct tables_agree as [_ [_ [_ [_ [F _]]]]]; unfold fields_agree_with_spec in F.
-  pose proof (forallb_In _ _ _ (cls, t, v0) F Hin) as F1; cbv beta in F1; cbn [fst snd] in F1.
-  apply andb_true_iff in F1; destruct F1 as [_ F2].
-  pose proof (forallb_In _ _ _ v F2 Hv) as F3; cbv beta in F3; cbn [fst snd] in F3; apply eqb_prop in F3.
-  rewrite F3, ver_leb_geb; reflexivity.
-Qed.
-
-Lemma class_gated_lemma : forall cls v0, In (cls, v0) SpecClassVersions ->
-  class_min_version "read" cls = Some v0 /\ class_min_version "write" cls = Some v0.
-Proof.
-  intros cls v0 Hin; destruct tables_agree as [_ [_ [_ [_ [_ [C _]]]]]]; unfold classes_agree_with_spec in C.
-  pose proof (forallb_In _ _ _ (cls, v0) C Hin) as C1; cbv beta in C1; cbn [fst snd] in C1.
-  apply andb_true_iff in C1; destruct C1 as [C1 C2]; unfold ver_opt_eqb in *.
-  destruct (class_min_version "read" cls) as [a|]; [|discriminate].
-  destruct (class_min_version "write" cls) as [b|]; [|discriminate].
-  apply ver_eqb_eq in C1; apply ver_eqb_eq in C2; subst; split; reflexivity.
-Qed.
-
-Definition class_refused_table_ok : bool :=
-  forallb (fun e => forallb (fun v => Bool.eqb (class_refused_in "read" (fst e) v) (ver_ltb v (snd e))
-                                      && Bool.eqb (class_refused_in "write" (fst e) v) (ver_ltb v (snd e))) kmip_versions)
-    SpecClassVersions.
-Lemma class_refused_table_ok_true : class_refused_table_ok = true.
-Proof. vm_compute; reflexivity. Qed.
-
-Lemma class_refused_lemma : forall cls v0 v, In (cls, v0) SpecClassVersions -> In v kmip_versions ->
-  class_refused_in "read" cls v = ver_ltb v v0 /\ class_refused_in "write" cls v = ver_ltb v v0.
-Proof.
-  intros cls v0 v Hin Hv; pose proof class_refused_table_ok_true as C; unfold class_refused_table_ok in C.
-  pose proof (forallb_In _ _ _ (cls, v0) C Hin) as C1; cbv beta in C1; cbn [fst snd] in C1.
-  pose proof (forallb_In _ _ _ v C1 Hv) as C2; cbv beta in C2; cbn [fst snd] in C2.
-  apply andb_true_iff in C2; destruct C2 as [C2 C3]; apply eqb_prop in C2; apply eqb_prop in C3; split; assumption.
-Qed.
